@@ -5,6 +5,8 @@ import (
 	"go/constant"
 	"go/token"
 	"go/types"
+	"strings"
+	"unicode"
 	"unicode/utf16"
 )
 
@@ -248,6 +250,44 @@ func (bp *BytePred) eval(info *types.Info, e ast.Expr, env bpEnv, depth int) (bp
 			}
 			return bpVal{}, false
 		}
+		if callee.Pkg() != nil && callee.Pkg().Path() == "unicode" && len(x.Args) == 1 {
+			v, ok := bp.eval(info, x.Args[0], env, depth+1)
+			if !ok || v.Is {
+				return bpVal{}, false
+			}
+			switch callee.Name() {
+			case "IsLetter":
+				return bpVal{B: unicode.IsLetter(rune(v.I)), Is: true}, true
+			case "IsDigit":
+				return bpVal{B: unicode.IsDigit(rune(v.I)), Is: true}, true
+			case "IsSpace":
+				return bpVal{B: unicode.IsSpace(rune(v.I)), Is: true}, true
+			case "IsUpper":
+				return bpVal{B: unicode.IsUpper(rune(v.I)), Is: true}, true
+			}
+			return bpVal{}, false
+		}
+		if callee.Pkg() != nil && callee.Pkg().Path() == "strings" && len(x.Args) == 2 {
+			// membership of a rune or byte in a constant string
+			tv, has := info.Types[x.Args[0]]
+			if !has || tv.Value == nil || tv.Value.Kind() != constant.String {
+				return bpVal{}, false
+			}
+			set := constant.StringVal(tv.Value)
+			v, ok := bp.eval(info, x.Args[1], env, depth+1)
+			if !ok || v.Is {
+				return bpVal{}, false
+			}
+			switch callee.Name() {
+			case "ContainsRune":
+				return bpVal{B: strings.ContainsRune(set, rune(v.I)), Is: true}, true
+			case "IndexRune":
+				return bpVal{I: int64(strings.IndexRune(set, rune(v.I)))}, true
+			case "IndexByte":
+				return bpVal{I: int64(strings.IndexByte(set, byte(v.I)))}, true
+			}
+			return bpVal{}, false
+		}
 		fd := bp.P.DeclOf(callee)
 		if fd == nil || fd.Body == nil || fd.Recv != nil {
 			return bpVal{}, false
@@ -436,6 +476,47 @@ func (bp *BytePred) exec(info *types.Info, list []ast.Stmt, env bpEnv, depth int
 				return v, done, ok
 			}
 		case *ast.SwitchStmt:
+			if s.Init == nil && s.Tag == nil {
+				// tagless switch: the first clause with a true condition
+				var chosen *ast.CaseClause
+				for _, c := range s.Body.List {
+					cc := c.(*ast.CaseClause)
+					if cc.List == nil {
+						continue
+					}
+					for _, l := range cc.List {
+						v, ok := bp.eval(info, l, env, depth+1)
+						if !ok || !v.Is {
+							return bpVal{}, false, false
+						}
+						if v.B && chosen == nil {
+							chosen = cc
+						}
+					}
+					if chosen != nil {
+						break
+					}
+				}
+				if chosen == nil {
+					for _, c := range s.Body.List {
+						if cc := c.(*ast.CaseClause); cc.List == nil {
+							chosen = cc
+						}
+					}
+				}
+				if chosen != nil {
+					for _, b := range chosen.Body {
+						if br, ok := b.(*ast.BranchStmt); ok {
+							_ = br
+							return bpVal{}, false, false
+						}
+					}
+					if v, done, ok := bp.exec(info, chosen.Body, env, depth+1); !ok || done {
+						return v, done, ok
+					}
+				}
+				continue
+			}
 			if s.Init != nil || s.Tag == nil {
 				return bpVal{}, false, false
 			}
@@ -483,6 +564,13 @@ func (bp *BytePred) exec(info *types.Info, list []ast.Stmt, env bpEnv, depth int
 		}
 	}
 	return bpVal{}, false, true
+}
+
+// ExecList interprets a statement list under env. done reports that a return was reached (ret is its value); ok is
+// false when a statement is outside the modelled subset.
+func (bp *BytePred) ExecList(info *types.Info, list []ast.Stmt, env Env) (retBool bool, retIsBool, done, ok bool) {
+	v, done, ok := bp.exec(info, list, env, 0)
+	return v.B, v.Is, done, ok
 }
 
 // ExecBody interprets a function body (no parameters) and returns false if a statement is outside
